@@ -13,6 +13,12 @@ var c05Fixed = []TplDef{
 	// nested counter loops that read the outer counter after the inner loop (the counters' buffer grows on a new
 	// context and has room on a reset one), and one counter loop after another
 	{Key: "t_nested_cloops", Src: `{% for i := 0; i < 3; i++ %}{% for j := 0; j < 2; j++ %}{% for k := 5; k > 3; k-- %}{%= i %}{%= j %}{%= k %},{% endfor %}{%= j %}{% endfor %}{%= i %};{% endfor %}{% for m := 0; m < 2; m++ %}{%= m %}{% endfor %}`, KeepFmt: true},
+	// len() / cap() of names that were set in an earlier use of the context and are not set now (their slots are still there)
+	{Key: "t_len_unset", Src: `{% if len(x1) == 0 %}E1{% else %}N1{% endif %}{% if cap(x2) >= 0 %}C2{% endif %}{% if len(bv) == 0 %}EB{% endif %}{% if len(lst) < 1 %}EL{% endif %}{% for i := 0; i < 3; i++ %}{% break if len(ss) == 0 %}.{% endfor %}`, KeepFmt: true},
+	// a host whose FIRST output is an include, of a template that writes a little and includes another one (the
+	// writers of nested includes live in the context and are reused after Reset; results of Render are the caller's)
+	{Key: "t_mid", Src: `m{% include t_readvars %}`, KeepFmt: true},
+	{Key: "t_inc_first", Src: `{% include t_mid %}!{% include t_mid %}`, KeepFmt: true},
 	// named modifier arguments whose values are variables that come and go between the uses of the context
 	{Key: "t_kv", Src: `{%= si|vcat({p: x1, q: "z"}, {r: x2}) %}|{%= bv|vcat({s: bv, t: x1}) %}`, KeepFmt: true},
 	{Key: "t_html_open", Src: `{% htmlescape %}<b>{%= ss %}`, KeepFmt: true},
@@ -162,6 +168,16 @@ func init() {
 			}
 		}
 		runSessions(r, cases, outputDiffers)
+		// one counter loop after another, then reads of BOTH loop variables (each keeps its own last value); a step of zero
+		for _, src := range []string{`{% for i := 0; i < 3; i++ %}a{% endfor %}[{%= i %}]{% for j := 0; j < 2; j++ %}b{% endfor %}[{%= i %}][{%= j %}]{% if i == 3 %}I{% endif %}{% if j == 2 %}J{% endif %}`,
+			`{% for i := 0; i < 2; i++ %}{% for j := 5; j > 3; j-- %}.{% endfor %}[{%= i %}{%= j %}]{% endfor %}{% for k := 0; k < 1; k++ %}{% endfor %}[{%= i %}|{%= j %}|{%= k %}]`,
+			`{% counter c = 6 %}[{%= c %}]{% counter c+0 %}[{%= c %}]{% counter c-0 %}[{%= c %}]{% counter c-10 %}[{%= c %}]{% counter c+1 %}[{%= c %}]`} {
+			c := &RCase{Tpls: []TplDef{{Key: "main", Src: src, KeepFmt: true}}, Meta: map[string]any{"successive-loops-and-zero-steps": src}}
+			c.Ops = []SOp{{Kind: "render", Key: "main"}, {Kind: "render", Key: "main"}}
+			cases2 := []*RCase{c}
+			runSessions(r, cases2, outputDiffers)
+			r.Dist["successive-loops"]++
+		}
 		// two names given the SAME Go pointer by the caller: a counter tag on one of them changes neither the other name
 		// nor the caller's variable (the counter owns its value from then on)
 		{
